@@ -1381,7 +1381,7 @@ def plan(prop, tier):
     if prop in ("C03", "C04", "C05", "C06", "C10", "C11", "C12", "C13", "C18",
                 "C19"):
         out = out + [("clone", [9, 17])]
-    if prop in ("C03", "C04", "C05", "C06", "C10", "C11", "C13"):
+    if prop in ("C03", "C04", "C05", "C06", "C10", "C11", "C13", "C19"):
         out = out + [("structures", list(range(16)))]
     return out
 
